@@ -83,18 +83,27 @@ func concApp(key string, except []string, dec func(v, k string) (string, error))
 }
 
 type concClient struct {
+	inst   int // which middleware instance (key) this client talks to
 	names  []string
 	plain  []string
-	sent   []string // cookie values as sent (ciphertext, or raw for the excepted name)
 	header string
 	want   string
-	bad    string // first response that differed
+	bad    string // first observation that differed
+	badSig string
 	reqs   int
+}
+
+// concView renders what the handler reports for the cookies name=value in order.
+func concView(names, vals []string) string {
+	var sb strings.Builder
+	for i, n := range names {
+		sb.WriteString(n + "=" + vals[i] + ";")
+	}
+	return "V:" + sb.String() + "|C:" + sb.String()
 }
 
 func conc(e *ev.Env, c *ev.Case) {
 	r := c.R
-	_, key := genKey(r)
 	pool := pickNames(r, 6) // few names: different clients use the same names
 	exName := pool[5]
 	var inFlight, overlaps int64
@@ -111,21 +120,32 @@ func conc(e *ev.Env, c *ev.Case) {
 		atomic.AddInt64(&inFlight, -1)
 		return s, err
 	}
-	app := concApp(key, []string{exName}, dec)
-	d := drive.NewDirect(app)
+	// one or two middleware instances with different valid keys, serving at the same time
+	nInst := 1 + r.PickW(1, 2)
+	var ds []*drive.Direct
+	var keyLens []int
+	for k := 0; k < nInst; k++ {
+		kr, key := genKey(r)
+		keyLens = append(keyLens, len(kr))
+		d := dec
+		if r.Chance(1, 3) {
+			d = nil // the package's default decryptor, untouched
+		}
+		ds = append(ds, drive.NewDirect(concApp(key, []string{exName}, d)))
+	}
 
 	nClients := r.Range(2, 8)
 	rounds := r.Range(8, 24)
 	clients := make([]*concClient, nClients)
-	owner := map[string]int{} // plaintext -> client
 	for i := range clients {
-		cl := &concClient{}
+		cl := &concClient{inst: i % nInst}
 		n := r.Range(1, 8) // the middleware keeps up to 8 cookies in its fixed scratch space
 		if r.Chance(1, 8) {
 			n = r.Range(9, 11)
 		}
 		p := append([]string(nil), pool[:5]...)
 		gen.Shuffle(r, p)
+		tag := uid(r, 3)
 		for j := 0; j < n; j++ {
 			var name string
 			switch {
@@ -137,26 +157,19 @@ func conc(e *ev.Env, c *ev.Case) {
 				name = fmt.Sprintf("%s%d", p[j%5], j)
 			}
 			cl.names = append(cl.names, name)
-			v := fmt.Sprintf("c%dn%d-%s", i, j, uid(r, 4))
-			cl.plain = append(cl.plain, v)
-			owner[v] = i
+			cl.plain = append(cl.plain, fmt.Sprintf("c%dn%d-%s", i, j, tag))
 		}
 		clients[i] = cl
 	}
-	cfg := map[string]any{"clients": nClients, "rounds": rounds, "yields_in_decryptor": yields, "excepted": exName}
+	cfg := map[string]any{"instances": nInst, "key_lens": keyLens, "clients": nClients, "rounds": rounds, "yields_in_decryptor": yields, "excepted": exName}
 
-	// issue, one client after the other
-	for i, cl := range clients {
+	// issue lets the client's own instance encrypt `vals` and returns the Cookie header to send back
+	issue := func(cl *concClient, vals []string) (string, string) {
 		var parts []string
 		for j := range cl.names {
-			parts = append(parts, cl.names[j]+"="+cl.plain[j])
+			parts = append(parts, cl.names[j]+"="+vals[j])
 		}
-		var resp *drive.Resp
-		if e.Guard(c, "issue-conc", cfg, func() {
-			resp = d.Do(&drive.Req{Method: "POST", URI: "/", Body: []byte(strings.Join(parts, "&"))})
-		}) {
-			return
-		}
+		resp := ds[cl.inst].Do(&drive.Req{Method: "POST", URI: "/", Body: []byte(strings.Join(parts, "&"))})
 		got := map[string]string{}
 		for _, line := range resp.All("Set-Cookie") {
 			if sc, bad := strict.ParseSetCookie(line); bad == "" {
@@ -164,28 +177,43 @@ func conc(e *ev.Env, c *ev.Case) {
 			}
 		}
 		var hp []string
-		var v, cv strings.Builder
 		for j, n := range cl.names {
 			s, ok := got[n]
 			if !ok {
-				stat(e, "conc_skipped_nothing_issued", 1)
-				return
+				return "", "set-cookie-missing"
 			}
-			if n != exName && s == cl.plain[j] {
-				e.Violation(c, "confidentiality|wire-set-cookie|value-not-encrypted", "plaintext of an encrypted cookie is visible in its Set-Cookie value", cfg)
-				return
+			if n != exName && s == vals[j] {
+				return "", "value-not-encrypted"
 			}
-			cl.sent = append(cl.sent, s)
 			hp = append(hp, n+"="+s)
-			v.WriteString(n + "=" + cl.plain[j] + ";")
-			cv.WriteString(n + "=" + cl.plain[j] + ";")
 		}
-		cl.header = strings.Join(hp, "; ")
-		cl.want = "V:" + v.String() + "|C:" + cv.String()
-		_ = i
+		return strings.Join(hp, "; "), ""
+	}
+	read := func(inst int, hdr string) string {
+		return string(ds[inst].Do(&drive.Req{Method: "GET", URI: "/read", Hdr: []drive.H{{K: "Cookie", V: hdr}}}).Body)
 	}
 
-	// all clients at once, every one with its own cookies
+	// a first issue, one client after the other
+	for _, cl := range clients {
+		var hdr, bad string
+		if e.Guard(c, "issue-conc", cfg, func() { hdr, bad = issue(cl, cl.plain) }) {
+			return
+		}
+		switch bad {
+		case "set-cookie-missing":
+			stat(e, "conc_skipped_nothing_issued", 1)
+			return
+		case "value-not-encrypted":
+			e.Violation(c, "confidentiality|wire-set-cookie|value-not-encrypted", "plaintext of an encrypted cookie is visible in its Set-Cookie value", cfg)
+			return
+		}
+		cl.header = hdr
+		cl.want = concView(cl.names, cl.plain)
+	}
+
+	// all clients at once. Every round: replay the own cookies to the own instance; have the own
+	// instance issue fresh values (encryption runs concurrently, too), replay those to the own
+	// instance and present them to the instance with the other key, which must see "".
 	var wg sync.WaitGroup
 	var panics sync.Map
 	start := make(chan struct{})
@@ -198,12 +226,43 @@ func conc(e *ev.Env, c *ev.Case) {
 					panics.Store(i, fmt.Sprint(p))
 				}
 			}()
+			fail := func(sig, saw string) {
+				if cl.bad == "" {
+					cl.bad, cl.badSig = saw, sig
+				}
+			}
 			<-start
 			for k := 0; k < rounds; k++ {
-				resp := d.Do(&drive.Req{Method: "GET", URI: "/read", Hdr: []drive.H{{K: "Cookie", V: cl.header}}})
 				cl.reqs++
-				if body := string(resp.Body); body != cl.want && cl.bad == "" {
-					cl.bad = body
+				if body := read(cl.inst, cl.header); body != cl.want {
+					fail("own", body)
+				}
+				fresh := make([]string, len(cl.plain))
+				for j := range fresh {
+					fresh[j] = fmt.Sprintf("%sr%d", cl.plain[j], k)
+				}
+				hdr, bad := issue(cl, fresh)
+				cl.reqs++
+				if bad != "" {
+					fail("issue:"+bad, "")
+					continue
+				}
+				cl.reqs++
+				if body := read(cl.inst, hdr); body != concView(cl.names, fresh) {
+					fail("own", body)
+				}
+				if nInst > 1 {
+					// the other-key instance: excepted names pass, everything else is empty
+					other := make([]string, len(fresh))
+					for j, n := range cl.names {
+						if n == exName {
+							other[j] = fresh[j]
+						}
+					}
+					cl.reqs++
+					if body := read((cl.inst+1)%nInst, hdr); body != concView(cl.names, other) {
+						fail("other-key", body)
+					}
 				}
 			}
 		}(i, cl)
@@ -217,6 +276,9 @@ func conc(e *ev.Env, c *ev.Case) {
 	}
 	e.Eval(total)
 	stat(e, "conc_cases", 1)
+	if nInst > 1 {
+		stat(e, "conc_cases_two_keys", 1)
+	}
 	stat(e, "conc_requests", int64(total))
 	stat(e, "conc_decrypts_overlapping_another", atomic.LoadInt64(&overlaps))
 	if overlaps > 0 {
@@ -232,26 +294,32 @@ func conc(e *ev.Env, c *ev.Case) {
 		return
 	}
 	for i, cl := range clients {
-		if cl.bad == "" {
+		if cl.bad == "" && cl.badSig == "" {
 			stat(e, "conc_requests_ok", int64(cl.reqs))
 			continue
 		}
-		// whose value did the handler see?
-		foreign := -1
-		for v, o := range owner {
-			if o != i && strings.Contains(cl.bad, "="+v+";") {
-				if foreign == -1 || o < foreign {
+		det := map[string]any{"config": cfg, "client": i, "instance": cl.inst, "cookie_header": cl.header, "handler_saw": printable(cl.bad),
+			"cookies_of_this_client": len(cl.names), "client_values_start_with": fmt.Sprintf("c%dn", i)}
+		switch {
+		case strings.HasPrefix(cl.badSig, "issue:"):
+			e.Violation(c, "concurrency|issue|"+strings.TrimPrefix(cl.badSig, "issue:"), "with requests in flight at the same time a cookie was not issued as ciphertext", det)
+		case cl.badSig == "other-key":
+			e.Violation(c, "concurrency|handler-view|other-key-instance-accepted-value", "with two instances serving at the same time the instance with another key did not see the foreign cookie as empty", det)
+		default:
+			// whose value did the handler see?
+			foreign := -1
+			for o := range clients {
+				if o != i && strings.Contains(cl.bad, fmt.Sprintf("=c%dn", o)) {
 					foreign = o
+					break
 				}
 			}
-		}
-		det := map[string]any{"config": cfg, "client": i, "cookie_header": cl.header, "handler_saw": printable(cl.bad), "expected": printable(cl.want),
-			"cookies_of_this_client": len(cl.names)}
-		if foreign >= 0 {
-			det["value_belongs_to_client"] = foreign
-			e.Violation(c, "concurrency|handler-view|value-of-another-request", "with requests in flight at the same time a handler saw a cookie value that belongs to another client's request", det)
-		} else {
-			e.Violation(c, "concurrency|handler-view|own-value-not-delivered", "with requests in flight at the same time a handler did not see its own client's cookie values", det)
+			if foreign >= 0 {
+				det["value_belongs_to_client"] = foreign
+				e.Violation(c, "concurrency|handler-view|value-of-another-request", "with requests in flight at the same time a handler saw a cookie value that belongs to another client's request", det)
+			} else {
+				e.Violation(c, "concurrency|handler-view|own-value-not-delivered", "with requests in flight at the same time a handler did not see its own client's cookie values", det)
+			}
 		}
 		return
 	}
